@@ -184,6 +184,10 @@ def dtype_compatible(declared, actual, has_null, mode):
     dk, ak = dtype_kind(declared), dtype_kind(actual)
     if dk == ak:
         return True
+    if mode == "kindpromo" and {dk, ak} <= {"int", "bool", "float", "str/obj"} and ("int" in (dk, ak) or "bool" in (dk, ak)):
+        # the column acquired missing values somewhere upstream (outer join, shift, where) even if they
+        # were filtered out again: pandas itself keeps the promoted dtype
+        return True
     # pandas' own promotion of int/bool that acquired missing values
     if dk in ("int", "bool") and ak in ("float", "str/obj") and has_null:
         return True
